@@ -39,12 +39,30 @@ def specHostLine (ext : Ext) (dn : Bytes → Bool) (line : Bytes) : Option (List
 def specHostAnswer (names : List Bytes) (a : Addr) (q : Bytes) : Bool × Bool :=
   (decide (q ∈ names) && a.is4, decide (q ∈ names) && !a.is4)
 
-/-- The carve-out of DESIGN.md §6 as a test on the line: the line starts like a comment, or it
-    contains `$$` / `$@$`, or its first '#' directly follows a non-blank and starts a cosmetic marker.
-    Such lines are outside the hosts grammar. -/
-def hostLineCarveOut (line : Bytes) : Bool :=
+/-- The carve-out of DESIGN.md §6, EXACTLY: the lines `NewRule` does not hand to the hosts syntax,
+    as computed by the model of its two tests -- the line is a comment line or cosmetic syntax.
+    (Before the repair of D16 this was a syntactic test that excluded every line CONTAINING `$$` or
+    `$@$`, which hid the defect.)  For the lines of the property's grammar the set is characterised
+    syntactically by `commentIsMarker` (theorem `c18_carveOut_grammar`), for every line a syntactic
+    sufficient condition for being outside it is `hostLineOutside = false`
+    (`c18_not_comment_not_cosmetic`). -/
+def hostLineCarveOut (line : Bytes) : Bool := isCommentLine line || isCosmeticLine line
+
+/-- The carve-out the property itself states, on the parts of a grammar line
+    `… name trail cmt`: "a double '#' only after a blank, otherwise the line is element-hiding
+    syntax" -- the comment directly follows a non-blank (`trail` is empty) and begins with a cosmetic
+    marker (`##`, `#@#`, `#?#`, `#$#`, `#%#`, …; a comment begins with '#', so `$$`/`$@$` cannot). -/
+def commentIsMarker (trail cmt : Bytes) : Bool :=
+  trail.isEmpty && Facts.H.cosmeticMarkers.any (fun m => hasPrefix cmt m)
+
+/-- A purely syntactic test, independent of the marker search of the model, used by the driver to
+    decide on which lines the hosts reference is compared: the line starts like a comment, or the
+    text before the comment sign contains a '$' (not a character of a name or an address), or the
+    first '#' directly follows a non-blank and starts a cosmetic marker.  What follows the comment
+    sign is otherwise irrelevant (`$$`, `$@$`, ` ##` … in comments are inside the domain). -/
+def hostLineOutside (line : Bytes) : Bool :=
   line.head? == some (ch '!') || line.head? == some (ch '#') ||
-  hasSub line (lit "$$") || hasSub line (lit "$@$") ||
+  (hostLineBody line).any (fun c => c == ch '$') ||
   (match indexByte line (ch '#') with
    | some i =>
      decide (i > 0) && !(line[i - 1]? == some (ch ' ') || line[i - 1]? == some (ch '\t')) &&
@@ -60,6 +78,8 @@ open Bytes
 
 def blankFree (s : Bytes) : Bool := s.all fun c => !isBlank c
 def hashFree (s : Bytes) : Bool := s.all fun c => c != ch '#'
+/-- No '$': not a character of a host name or of an address. -/
+def dollarFree (s : Bytes) : Bool := s.all fun c => c != ch '$'
 def allBlank (s : Bytes) : Bool := s.all isBlank
 
 /-- A name (or an address text): non-empty, without blanks and without '#'. -/
@@ -83,5 +103,12 @@ def hostLineBare (name trail cmt : Bytes) : Bytes := name ++ trail ++ cmt
 
 def goodPairs (wn : List (Bytes × Bytes)) : Bool :=
   wn.all fun p => isBlankRun p.1 && isHostToken p.2
+
+/-- The names contain no '$'. -/
+def dollarFreePairs (wn : List (Bytes × Bytes)) : Bool :=
+  wn.all fun p => dollarFree p.2
+
+/-- An address or a bare name: no '$' and no leading '!' (a line starting with '!' is a comment). -/
+def isPlainToken (t : Bytes) : Bool := dollarFree t && !(t.head? == some (ch '!'))
 
 end UF.H
